@@ -103,7 +103,8 @@ class PLog:
 
     @property
     def lso(self):
-        return min(self.open_txns.values()) if self.open_txns else self.leo
+        # the first unstable offset never lies below the log start (trimming truncates it)
+        return max(self.log_start, min(self.open_txns.values())) if self.open_txns else self.leo
 
     def append_raw(self, raw, append_time, arrival=None):
         """raw = ONE or more top-level batches with offsets already assigned."""
